@@ -336,6 +336,22 @@ theorem lis_identified_short (datP : Bytes → Bool) (L : TD.C05.Layout) (hL : L
   have hdeep := lisTest_encode L (r0 :: rs) hL hr' (by simp) (fun _ => hfn) ⟨cfg, hcfg, hrun⟩ es hidx hes
   exact lis_identified_c05 lisTest datP L hL r0 rs hhdr hmp hdeep
 
+/-! the hypotheses of `lis_identified_short` are satisfiable: a TIF-marked file header + one comment record -/
+def exHdr : List Nat := [128, 0, 82, 85, 78, 79, 110, 101, 46, 108, 105, 115, 0, 0] ++ List.replicate 44 32
+def exLay : TD.C05.Layout := ⟨1024, false, none, false, .le⟩
+def exRest : List (List Nat) := [[232, 0, 1, 2, 3]]
+
+set_option maxRecDepth 100000 in
+example (es : List TD.C06.Entry) (h : TD.C06.fileIndex (posRecs exLay (exHdr :: exRest) 0 2) = .ok es) :
+    identify lisTest (fun _ => false) (TD.C05.encode exLay (exHdr :: exRest)) = "LISt" :=
+  lis_identified_short _ exLay (by decide) exHdr exRest ⟨Or.inl (by simp [exHdr]), by decide, by decide, by decide⟩
+    (by intro h; cases h) (by decide) (by decide) (by decide +kernel) es h
+
+set_option maxRecDepth 100000 in
+/-- … and building the index of these two records succeeds; the concrete deep test evaluates to `LISt` -/
+example : (TD.C06.fileIndex (posRecs exLay (exHdr :: exRest) 0 2)).toOption.isSome = true ∧
+    lisTest (TD.C05.encode exLay (exHdr :: exRest)) = .list := by decide +kernel
+
 /-- a file header record (`RUNOne.lis`, NUL filler) is a `LisHeaderRec` -/
 example : LisHeaderRec ([128, 0, 82, 85, 78, 79, 110, 101, 46, 108, 105, 115, 0, 0] ++ List.replicate 44 32) :=
   ⟨Or.inl (by simp), by decide, by decide, by decide⟩
